@@ -1194,8 +1194,9 @@ impl<'de, 'e> de::Deserializer<'de> for YamlDeserializer<'de, 'e> {
                     return visitor.visit_unit();
                 }
                 let is_plain = matches!(style, ScalarStyle::Plain);
-                // Treat all YAML null-like scalars (null, ~, empty) as null when typeless.
-                if scalar_is_nullish(value, style) {
+                // Treat all YAML null-like scalars (null, ~, empty) as null when typeless,
+                // unless `!!str` says the text is a string.
+                if tag != &SfTag::String && scalar_is_nullish(value, style) {
                     let _ = self.ev.next()?; // consume
                     return visitor.visit_unit();
                 }
